@@ -198,3 +198,20 @@ func vhC14UnmarshalJSON() {
 	err := f.UnmarshalJSON(verifJSONDoc(s))
 	vhC14Check("UnmarshalJSON", s, f, err, true)
 }
+
+// Several lines with every mix of line terminators (the line-ending style may change from
+// one line to the next): an id:/event: value never swallows a terminator and the line after it.
+func vhC14MessageUnmarshalLines() {
+	nl := []string{"\n", "\r", "\r\n"}
+	first := []string{"data:a", ":c", "id:0"}[verifChoose("first", 3)]
+	name := []string{"id:", "event:"}[verifChoose("name", 2)]
+	hole := verifNondetString("hole", 1)
+	wire := first + nl[verifChoose("nl", 3)] + name + "1" + hole + nl[verifChoose("nl", 3)] + "data: injected" + nl[verifChoose("nl", 3)] + nl[verifChoose("nl", 3)]
+	var m Message
+	_ = m.UnmarshalText([]byte(wire))
+	verifAssert(!m.ID.IsSet() || !vhHasNL(m.ID.String()), "C14/Message.UnmarshalText/id-single-line")
+	verifAssert(!m.Type.IsSet() || !vhHasNL(m.Type.String()), "C14/Message.UnmarshalText/type-single-line")
+	if m.ID.IsSet() || m.Type.IsSet() {
+		verifCover("C14/Message.UnmarshalText/field-set")
+	}
+}
